@@ -1109,7 +1109,7 @@ func c11(c *Ctx) {
 	// the child: this harness command rebuilt with the delay overlay (random Gosched/Sleep before every
 	// channel operation, close, join/leave call and socket write of connection.go)
 	outAbs, _ := filepath.Abs(c.Out)
-	bin, sites, err := BuildChild("C11", outAbs, "c11child", false)
+	bin, sites, err := BuildChildLines("C11", outAbs, "c11child", false)
 	if err != nil {
 		self, _ := os.Executable()
 		bin = self
